@@ -429,6 +429,29 @@ def threads_part_body(res, rng, big):
         segs = [stream[j:j + 1024] for j in range(0, len(stream), 1024)]
         check_delivery(res, ep, frames, segs, "1024-byte reads", {"kind": "seg", "frames": None, "seed_case": i, "cuts": "1024"})
         res.count(("1024", stream))
+    # link lost in the MIDDLE of a frame (its length field already received), then the same protocol object is connected again: the stream
+    # of the new connection has to be framed from its first byte, nothing of the unfinished frame of the old connection may survive
+    # (receive buffer, or anything the framing loop remembered about the frame it was waiting for)
+    for i in range(12 if big else 5):
+        ep2 = Endpoint()
+        part = M.ref_frame(rng.range(1, 2**32 - 1), 0, 1, 1, True, 0, 0, rng.bytes(rng.choice([20, 50, 300, 2000])))
+        keep = rng.range(4, len(part) - 1)
+        pre = M.cut(part[:keep], M.partitions_random(rng, keep, rng.range(0, 3)))
+        ep2.feed(pre)
+        M.wait_until(lambda: not ep2.p._thread._receiver_thread_trigger.is_set(), 1.0, must=False)   # the receiver had its look at the part
+        time.sleep(0.01)
+        ep2.close()
+        ep2.c.on_connected({"source": ep2.c})
+        frames = gen_valid_frames(rng, rng.range(2, 5))
+        stream = b"".join(f[2] for f in frames)
+        offs = list(range(1, len(stream))) if (i % 2 == 0 and len(stream) <= 600) else M.partitions_random(rng, len(stream), rng.range(1, 8))
+        case = {"kind": "relink", "partial_frame": part.hex() if len(part) < 400 else None, "partial_len": len(part), "received_of_it": keep,
+                "then": "disconnect, connect", "frames": [f[2].hex() for f in frames] if len(stream) < 3000 else None,
+                "cuts": "all" if len(offs) == len(stream) - 1 else offs}
+        check_delivery(res, ep2, frames, M.cut(stream, offs), "new connection after link loss inside a frame", case)
+        res.count(("relink", part[:keep], stream), sample={"op": "partial frame, link loss, reconnect, new stream", "received_of_partial": keep,
+                                                           "frames": len(frames)} if i == 0 else None)
+        ep2.close()
     # long bursts reassembled back to back, every frame needing an answer written by the receiver thread (Linktest.req → Linktest.rsp, data
     # while not selected → Reject.req): receiver thread (framing + sending) and dispatcher (handling + waiting for its send) must not stop
     # each other however many frames one segment carries
